@@ -169,7 +169,7 @@ pub fn bases_to_raw(b: &[u8]) -> u128 {
     b.iter().fold(0u128, |a, x| (a << 2) | (*x as u128))
 }
 
-fn ascii_noise(rng: &mut Rng, len: usize) -> String {
+pub fn ascii_noise(rng: &mut Rng, len: usize) -> String {
     (0..len)
         .map(|_| {
             if rng.chance(5, 6) {
